@@ -975,7 +975,7 @@ def part_adapter(ctx):
     p.info = info["stats"]
 
     def bad(f, n, lst):
-        idx = [int(x) for x in re.findall(r"(\d+)%nat", lst)]
+        idx = [int(x) for x in re.findall(r"(\d+)%N", lst)]
         p.violation("adapter-differs", "streamWrapper.adaptIn translates a StreamingPull request differently from Adapter.adapt_in (ack ids, deadline ids, the one deadline of the request, flow control): %s" %
                     json.dumps([info["cases"][i] for i in idx[:2]])[:900], dict(kind="adapter-diff", cases=[info["cases"][i] for i in idx[:10]], seed=ctx["seed"]))
     _eval_dir(p, d, "adapter.v", ["bad"], bad)
